@@ -544,6 +544,23 @@ def to_poly(e, atoms, limit=30000):
                             r = walk(flipped)
                             if _ctx["parity"][e.decl().name()] == "odd":
                                 r = -r
+                if r is None and _ctx.get("parity") and e.num_args() > 1 and e.decl().kind() == z3.Z3_OP_UNINTERPRETED \
+                        and isinstance(_ctx["parity"].get(e.decl().name()), tuple):
+                    # a helper proved even under the simultaneous sign change of the arguments at `positions`:
+                    # those arguments are negated together when the first of them has a negative leading coefficient
+                    par, positions = _ctx["parity"][e.decl().name()]
+                    try:
+                        polys = [reduce_trig(cancel_inverses(walk(e.arg(k))), _ctx["pairs"]) for k in positions]
+                    except NotPolynomial:
+                        polys = None
+                    lead = next((pp for pp in (polys or []) if pp.t), None)
+                    if lead is not None and _lead_negative(lead) and par == "even":
+                        args = list(e.children())
+                        for k, pp in zip(positions, polys):
+                            args[k] = poly_to_term(-pp, atoms)
+                        flipped = e.decl()(*args)
+                        keep.append(flipped)
+                        r = walk(flipped)
                 if r is None and _ctx.get("parity") and kind == z3.Z3_OP_ITE and z3.is_real(e):
                     r = ite_atom(e, atoms, walk, keep)
                 if r is None:
